@@ -152,6 +152,8 @@ pub struct Ctx<'a> {
     /// set by the message generator when the library's own builder produced a FINGERPRINT that the
     /// reference decoder refuses (description, bytes); consumed by the C09 scenario
     pub builder_fp_wrong: Option<(String, Vec<u8>)>,
+    /// a TRACE-level tracing subscriber is installed on this thread for the whole run
+    pub tracing_on: bool,
 }
 
 impl<'a> Ctx<'a> {
@@ -269,7 +271,7 @@ pub struct RunOut {
 
 pub fn run_one(f: ScenarioFn, cfg: &Cfg, mut ch: Choices, verbose: bool) -> RunOut {
     QUIET.with(|q| q.set(true));
-    let mut ctx = Ctx { ch: &mut ch, log: Log::new(verbose), st: Stats::default(), cfg, case_hashes: vec![], builder_fp_wrong: None };
+    let mut ctx = Ctx { ch: &mut ch, log: Log::new(verbose), st: Stats::default(), cfg, case_hashes: vec![], builder_fp_wrong: None, tracing_on: false };
     // buggify: in one run of eight (scenario `wire` decides for itself) a tracing subscriber that
     // formats everything down to TRACE is installed for the whole run, so that #[instrument]
     // arguments, `ret` values and every log statement of the library really get evaluated
@@ -277,6 +279,7 @@ pub fn run_one(f: ScenarioFn, cfg: &Cfg, mut ch: Choices, verbose: bool) -> RunO
     if tracing_on {
         ctx.st.inc("probe.tracing_subscriber_installed");
     }
+    ctx.tracing_on = tracing_on;
     let r = catch_unwind(AssertUnwindSafe(|| if tracing_on { crate::pipeline::with_subscriber(|| f(&mut ctx)) } else { f(&mut ctx) }));
     QUIET.with(|q| q.set(false));
     let mut harness_error = None;
